@@ -843,6 +843,12 @@ theorem attach_reads_nothing (t : Rat) (len : Nat) :
   · simp [mixStep, Mix.attach, Mix.reads]
   · simp [seqStep, SeqSt.reads]
 
+/-- **C02.12a'** the same, read off the observation the tie compares: the counters seen right after an `add`
+are the old ones and a 0, and the `add` "delivers" (it cannot fail) -/
+theorem mixer_add_observation (s : Mix) (t : Rat) (len : Nat) :
+    (mixStep s (.attach t len)).2.reads = s.reads ++ [0] ∧ (mixStep s (.attach t len)).2.ok = true := by
+  rw [(attach_reads_nothing t len).1 s]; exact ⟨rfl, rfl⟩
+
 /-- **C02.12b** mixer, every history (events added before the first request, between requests, after the
 mixer has ended; `keep` or not): after every event every event source has exactly
 `min len (outputs delivered - start)` items read, and a request delivers iff the generator has not ended
